@@ -1,4 +1,5 @@
 import ScyllaVerif.Model.Speculative
+import ScyllaVerif.Model.SpecStmtConfig
 import ScyllaVerif.Model.Exec
 /-! C13 — speculative execution is idempotent-only, bounded, and first real answer wins (theorems).
 
@@ -1829,5 +1830,132 @@ example : (run (initSpec 2 none ([] : List Nat) : St Nat Nat)
     [.timerFires, .timerFires, .timerFires, .complete 0 (some (.err (.connectionPoolError .initializing))),
      .complete 1 (some (.err (.connectionPoolError .initializing))), .complete 2 (some (.err (.connectionPoolError .initializing)))]).returned
     = some (.err (.connectionPoolError .initializing)) := by decide
+
+/-! ### 9. where the flag comes from: the setters of `Statement` / `PreparedStatement` / `Batch`
+
+"A request NOT MARKED idempotent" is a statement on which the user's last `set_is_idempotent` call (if any) said
+`false`.  The gate reads `StatementConfig.is_idempotent`; these theorems say, for EVERY sequence of public setter
+calls, that this field is what the user marked — no other setter (tracing, timestamp, consistency, profile, …)
+writes it — and chain that into the gate theorems.  The tie of `SpecStmtConfig.apply` to the real setters is the
+`cfg` case kind (all getters after random / exhaustive call sequences on the three real types). -/
+section provenance
+open ScyllaVerif.SpecStmtConfig
+
+/-- What the user marked: the argument of the last `set_is_idempotent` call, else the value before. -/
+def lastMarked (init : Bool) (ops : List Op) : Bool :=
+  (ops.reverse.findSome? (fun o => match o with
+    | .setIdempotent b => some b
+    | _ => none)).getD init
+
+/-- **Frame**: a call that is not `set_is_idempotent` leaves the flag as it was. -/
+theorem idem_frame (c : Config) (op : Op) (h : ∀ b, op ≠ .setIdempotent b) : (apply c op).isIdempotent = c.isIdempotent := by
+  cases op <;> first | rfl | exact absurd rfl (h _)
+
+/-- **Every field has exactly one family of writers** (the complete frame table of the sixteen calls): if a field
+changed, the call was one of its own setters. -/
+theorem setter_frame (c : Config) (op : Op) :
+    ((apply c op).isIdempotent ≠ c.isIdempotent → ∃ b, op = .setIdempotent b) ∧
+    ((apply c op).tracing ≠ c.tracing → ∃ b, op = .setTracing b) ∧
+    ((apply c op).skipMeta ≠ c.skipMeta → ∃ b, op = .setSkipMeta b) ∧
+    ((apply c op).consistency ≠ c.consistency → (∃ x, op = .setConsistency x) ∨ op = .unsetConsistency) ∧
+    ((apply c op).serial ≠ c.serial → (∃ x, op = .setSerial x) ∨ op = .unsetSerial) ∧
+    ((apply c op).timestamp ≠ c.timestamp → ∃ t, op = .setTimestamp t) ∧
+    ((apply c op).timeout ≠ c.timeout → ∃ t, op = .setTimeout t) ∧
+    ((apply c op).history ≠ c.history → (∃ l, op = .setHistory l) ∨ op = .removeHistory) ∧
+    ((apply c op).profile ≠ c.profile → ∃ h, op = .setProfile h) ∧
+    ((apply c op).lb ≠ c.lb → ∃ p, op = .setLb p) ∧
+    ((apply c op).retry ≠ c.retry → ∃ p, op = .setRetry p) ∧
+    ((apply c op).pageSize ≠ c.pageSize → ∃ n, op = .setPageSize n) := by
+  cases op <;> simp [apply]
+
+/-- **The flag the gate reads is what the user marked**, after any sequence of calls from any configuration. -/
+theorem gateFlag_eq_lastMarked (c : Config) (ops : List Op) :
+    gateFlag (applyAll c ops) = lastMarked c.isIdempotent ops := by
+  unfold gateFlag applyAll lastMarked
+  induction ops generalizing c with
+  | nil => rfl
+  | cons op ops ih =>
+    rw [List.foldl_cons, ih, List.reverse_cons, List.findSome?_append]
+    cases hr : ops.reverse.findSome? (fun o => match o with
+      | .setIdempotent b => some b
+      | _ => none) with
+    | some b => simp
+    | none => cases op <;> simp [apply]
+
+/-- Never marked `true` (and not idempotent to begin with — `Statement::new`, `Batch::new`, a freshly prepared
+statement) ⇒ the gate sees `false`, whatever else was configured. -/
+theorem never_marked_gate_false (c : Config) (ops : List Op) (h0 : c.isIdempotent = false)
+    (h : ∀ op ∈ ops, op ≠ .setIdempotent true) : gateFlag (applyAll c ops) = false := by
+  unfold gateFlag applyAll
+  induction ops generalizing c with
+  | nil => exact h0
+  | cons op ops ih =>
+    rw [List.foldl_cons]
+    apply ih
+    · have hop := h op (List.mem_cons_self ..)
+      cases op <;> first | exact h0 | skip
+      case setIdempotent b => cases b <;> first | rfl | exact absurd rfl hop
+    · exact fun o ho => h o (List.mem_cons_of_mem _ ho)
+
+/-- Preparing a statement carries the flag over unchanged, and later calls on the prepared statement obey the same
+law: the flag of `prepare(stmt ops₁) ops₂` is what the user marked last across both. -/
+theorem gateFlag_prepared (ops₁ ops₂ : List Op) :
+    gateFlag (applyAll (prepareFrom (applyAll {} ops₁)) ops₂) = lastMarked false (ops₁ ++ ops₂) := by
+  have h : applyAll (prepareFrom (applyAll {} ops₁)) ops₂ = applyAll {} (ops₁ ++ ops₂) := by
+    simp [applyAll, prepareFrom, List.foldl_append]
+  rw [h, gateFlag_eq_lastMarked]
+
+/-- The request a session API submits for a statement object with configuration `c`. -/
+def submittedOf (c : Config) (members : List Bool) (profiles : Nat → Option Nat) (dflt : Option Nat) : Submitted :=
+  { isIdempotent := gateFlag c, members := members, ownProfile := c.profile.map profiles, sessionDefault := dflt }
+
+theorem submittedOf_policy (c : Config) (members : List Bool) (profiles : Nat → Option Nat) (dflt : Option Nat) :
+    (submittedOf c members profiles dflt).gatePolicy = SpecStmtConfig.gatePolicy c profiles dflt := by
+  unfold submittedOf Submitted.gatePolicy SpecStmtConfig.gatePolicy
+  cases c.profile <;> rfl
+
+/-- **A statement (prepared from it or not, or a batch) that was never marked idempotent has exactly one execution**
+— whatever was configured on it (tracing, timestamp, consistencies, timeout, listener, policies, any profile with any
+speculative policy), whatever its members are marked, for every plan, timeout and schedule. -/
+theorem unmarked_statement_single_execution (ops₁ ops₂ : List Op)
+    (h : ∀ op ∈ ops₁ ++ ops₂, op ≠ .setIdempotent true)
+    (members : List Bool) (profiles : Nat → Option Nat) (dflt : Option Nat)
+    (dl : Option Nat) (plan : List τ) (evs : List (Event α)) :
+    let c := applyAll (prepareFrom (applyAll {} ops₁)) ops₂
+    let s := run ((submittedOf c members profiles dflt).start dl plan : St α τ) evs
+    s.started = 1 ∧ s.running.length ≤ 1 := by
+  intro c s
+  have hc : applyAll (prepareFrom (applyAll {} ops₁)) ops₂ = applyAll {} (ops₁ ++ ops₂) := by
+    simp [applyAll, prepareFrom, List.foldl_append]
+  have hf : gateFlag c = false := by
+    show gateFlag (applyAll (prepareFrom (applyAll {} ops₁)) ops₂) = false
+    rw [hc]; exact never_marked_gate_false {} _ rfl h
+  have := nonidempotent_single_execution (α := α) (SpecStmtConfig.gatePolicy c profiles dflt) dl plan evs
+  show (run ((submittedOf c members profiles dflt).start dl plan : St α τ) evs).started = 1 ∧
+    (run ((submittedOf c members profiles dflt).start dl plan : St α τ) evs).running.length ≤ 1
+  unfold Submitted.start
+  rw [submittedOf_policy]
+  simp only [Submitted.gateIdempotent, submittedOf, hf]
+  exact this
+
+/-- … and the executions of any statement are bounded by the policy of the profile its LAST `set_execution_profile_handle`
+named (the session default's if that was `None` or never called). -/
+theorem started_le_configured_profile (c : Config) (members : List Bool) (profiles : Nat → Option Nat) (dflt : Option Nat)
+    (dl : Option Nat) (plan : List τ) (evs : List (Event α)) :
+    (run ((submittedOf c members profiles dflt).start dl plan : St α τ) evs).started
+      ≤ 1 + (SpecStmtConfig.gatePolicy c profiles dflt).getD 0 := by
+  rw [← submittedOf_policy c members]
+  exact started_le_chosen_profile _ dl plan evs
+
+-- non-vacuity: tracing on, a timestamp, a profile with an aggressive policy, prepared, never marked: one execution;
+-- marked after all that: the second execution starts
+example : lastMarked false [.setTracing true, .setTimestamp (some 5), .setProfile (some 0)] = false := by decide
+example : gateFlag (applyAll {} [.setIdempotent true, .setTracing false, .setIdempotent false, .setTracing true]) = false := by decide
+example : (run ((submittedOf (applyAll {} [.setTracing true, .setProfile (some 0)]) [] (fun _ => some 3) none).start none [10, 11]
+    : St Nat Nat) [.pop 0, .send 0, .timerFires, .timerFires]).started = 1 := by decide
+example : (run ((submittedOf (applyAll {} [.setTracing true, .setProfile (some 0), .setIdempotent true]) [] (fun _ => some 3) none).start none [10, 11]
+    : St Nat Nat) [.pop 0, .send 0, .timerFires]).started = 2 := by decide
+
+end provenance
 
 end ScyllaVerif.Props.C13
